@@ -434,7 +434,15 @@ func (n need) sig() string {
 	if n.Mode == "ddl" {
 		return n.Kind + " ddl"
 	}
-	return fmt.Sprintf("%s %s@%s", n.Kind, n.Mode, n.Pos)
+	return fmt.Sprintf("%s %s@%s", n.Kind, n.Mode, strings.TrimSuffix(n.Pos, "(view)"))
+}
+
+// label is sig plus the marker for a table reached through a view.
+func (n need) label() string {
+	if strings.HasSuffix(n.Pos, "(view)") {
+		return n.sig() + "(view)"
+	}
+	return n.sig()
 }
 
 func (n need) String() string {
@@ -1076,10 +1084,10 @@ func oracle(c Case) vkit.Outcome {
 			}
 		}
 		for _, n := range tr.needs {
-			label("need:" + n.sig())
+			label("need:" + n.label())
 			if !e.covered(n, tr.sh, grants, c.DSNAdmin) {
 				uncoveredAsWritten++
-				label("uncovered:" + n.sig())
+				label("uncovered:" + n.label())
 			}
 		}
 		tw := e.unitTwin(s.SQL, tr)
